@@ -18,6 +18,7 @@ import (
 
 	"github.com/andres-erbsen/clock"
 	"github.com/uber-go/tally"
+	"github.com/willf/bitset"
 	"go.uber.org/zap"
 
 	"github.com/uber/kraken/core"
@@ -27,6 +28,7 @@ import (
 	"github.com/uber/kraken/lib/torrent/scheduler/connstate"
 	"github.com/uber/kraken/lib/torrent/storage"
 	"github.com/uber/kraken/lib/torrent/storage/agentstorage"
+	"github.com/uber/kraken/lib/torrent/storage/piecereader"
 	"github.com/uber/kraken/tracker/announceclient"
 	"github.com/uber/kraken/utils/log"
 	"github.com/uber/kraken/utils/verifh"
@@ -58,6 +60,8 @@ type c16eNoopEvents struct{}
 func (c16eNoopEvents) ConnClosed(*conn.Conn) {}
 
 type c16eEnv struct {
+	blobs    []*core.BlobFixture
+	rconns   []*conn.Conn // remote ends, kept open so that started local conns stay up
 	torrents []storage.Torrent
 	infos    []*storage.TorrentInfo
 	cleanups []func()
@@ -91,7 +95,9 @@ func c16eHandshaker(id core.PeerID) *conn.Handshaker {
 func c16eNewEnv() *c16eEnv {
 	e := &c16eEnv{pool: map[[2]int][]*conn.Conn{}, scheds: map[string]*c16eSched{}}
 	for i := 0; i < c16eNumHashes; i++ {
-		t, cleanup := agentstorage.TorrentFixture(core.MetaInfoFixture())
+		blob := core.SizedBlobFixture(16, 4)
+		e.blobs = append(e.blobs, blob)
+		t, cleanup := agentstorage.TorrentFixture(blob.MetaInfo)
 		e.torrents = append(e.torrents, t)
 		e.infos = append(e.infos, t.Stat())
 		e.cleanups = append(e.cleanups, cleanup)
@@ -122,6 +128,9 @@ func c16eNewEnv() *c16eEnv {
 
 func (e *c16eEnv) close() {
 	e.ln.Close()
+	for _, c := range e.rconns {
+		c.Close()
+	}
 	for _, c := range e.cleanups {
 		c()
 	}
@@ -183,8 +192,33 @@ func (e *c16eEnv) dial(h, p int) *conn.Conn {
 	if r.err != nil {
 		panic(r.err)
 	}
-	r.r.Conn.Close()
+	e.rconns = append(e.rconns, r.r.Conn)
 	return c
+}
+
+// pending makes a real *conn.PendingConn: peer p opens a connection for torrent h and sends a
+// handshake whose remote bitfields name the neighbours nbrs.
+func (e *c16eEnv) pending(h, p int, nbrs []int) *conn.PendingConn {
+	rb := conn.RemoteBitfields{}
+	for _, q := range nbrs {
+		rb[e.peers[q]] = bitset.New(uint(e.infos[h].Bitfield().Len()))
+	}
+	go func() {
+		// fails (the handshake is never answered by a scheduler that knows the torrent): ignored
+		r, err := e.remote[p].Initialize(e.localID, false, e.ln.Addr().String(), e.infos[h], rb, "verif")
+		if err == nil {
+			r.Conn.Close()
+		}
+	}()
+	nc, err := e.ln.Accept()
+	if err != nil {
+		panic(err)
+	}
+	pc, err := e.local.Accept(nc)
+	if err != nil {
+		panic(err)
+	}
+	return pc
 }
 
 func (e *c16eEnv) take(h, p int) *conn.Conn {
@@ -252,12 +286,56 @@ func c16eExec(t *verifh.T, e *c16eEnv, c verifh.Case) {
 	})
 	sc.clk.off = 0
 	st := newState(sc.sched, announcequeue.New())
-	for h, ctrl := range sc.ctrls {
-		st.torrentControls[h] = ctrl
+	// Cases that complete a torrent or hand conns to the dispatcher get their own torrents and
+	// dispatchers (same metainfo, hence same info hashes); the others share the scheduler's.
+	freshH := map[int]bool{}
+	connHash := map[string]int{}
+	for _, op := range c.Ops {
+		if len(op) == 5 && op[1] == "newconn" {
+			if h, ok := c16eIdx(op[3], 'h', c16eNumHashes); ok {
+				if _, dup := connHash[op[2]]; !dup {
+					connHash[op[2]] = h
+				}
+			}
+		}
+		if len(op) == 3 && op[1] == "complete" {
+			if h, ok := c16eIdx(op[2], 'h', c16eNumHashes); ok {
+				freshH[h] = true
+			}
+		}
+		if len(op) == 3 && (op[1] == "outgoing" || op[1] == "inconn") {
+			if h, ok := connHash[op[2]]; ok {
+				freshH[h] = true
+			}
+		}
+	}
+	torrents := append([]storage.Torrent(nil), e.torrents...)
+	var teardown []func()
+	for h := range e.blobs {
+		if !freshH[h] {
+			st.torrentControls[e.infos[h].InfoHash()] = sc.ctrls[e.infos[h].InfoHash()]
+			continue
+		}
+		tor, cleanup := agentstorage.TorrentFixture(e.blobs[h].MetaInfo)
+		torrents[h] = tor
+		ctrl, err := st.addTorrent("verif", tor, true)
+		if err != nil {
+			panic(err)
+		}
+		teardown = append(teardown, ctrl.dispatcher.TearDown, cleanup)
 	}
 	t.Cfg(c.Cfg...)
 	conns := map[int]*c16eConn{}
+	byPtr := map[*conn.Conn]int{}
 	hash := func(h int) core.InfoHash { return e.infos[h].InfoHash() }
+	isActive := func(c *conn.Conn) bool {
+		for _, a := range st.conns.ActiveConns() {
+			if a == c {
+				return true
+			}
+		}
+		return false
+	}
 
 	// records are written at once, or collected when the caller wants to place them later
 	type rec struct {
@@ -334,6 +412,7 @@ func c16eExec(t *verifh.T, e *c16eEnv, c verifh.Case) {
 				return
 			}
 			conns[k] = &c16eConn{c: e.take(h, p), h: h, p: p}
+			byPtr[conns[k].c] = k
 			t.Op(op[1:], "ok")
 		case "move", "connclosed":
 			if len(op) != 3 {
@@ -357,6 +436,116 @@ func c16eExec(t *verifh.T, e *c16eEnv, c verifh.Case) {
 			} else {
 				connClosedEvent{conns[k].c}.apply(st)
 				t.Op(op[1:], "ok")
+			}
+		case "outgoing", "inconn":
+			if len(op) != 3 {
+				return
+			}
+			k, okk := c16eIdx(op[2], 'c', 1<<20)
+			if !okk || conns[k] == nil || !freshH[conns[k].h] {
+				return
+			}
+			cc := conns[k]
+			wasActive, wasClosed := isActive(cc.c), cc.c.IsClosed()
+			info := torrents[cc.h].Stat()
+			if op[1] == "outgoing" {
+				outgoingConnEvent{cc.c, info.Bitfield(), info}.apply(st)
+			} else {
+				incomingConnEvent{"verif", cc.c, info.Bitfield(), info}.apply(st)
+			}
+			if !wasActive && isActive(cc.c) {
+				t.Op(op[1:], "ok")
+			} else {
+				t.Op(op[1:], "failed")
+			}
+			if !wasClosed && cc.c.IsClosed() {
+				// the handler closed the conn (error path): a harness-level fact the model is told
+				t.Op([]string{"close", op[2]}, "ok")
+			}
+		case "close":
+			if len(op) != 3 {
+				return
+			}
+			if k, okk := c16eIdx(op[2], 'c', 1<<20); okk && conns[k] != nil {
+				conns[k].c.Close()
+				t.Op(op[1:], "ok")
+			}
+		case "active":
+			if len(op) != 2 {
+				return
+			}
+			var ks []int
+			unknown := 0
+			for _, a := range st.conns.ActiveConns() {
+				if k, ok := byPtr[a]; ok {
+					ks = append(ks, k)
+				} else {
+					unknown++
+				}
+			}
+			sort.Ints(ks)
+			var toks []string
+			for _, k := range ks {
+				toks = append(toks, fmt.Sprintf("c%d", k))
+			}
+			for i := 0; i < unknown; i++ {
+				toks = append(toks, "c?")
+			}
+			t.Op(op[1:], verifh.List(toks))
+		case "complete":
+			if len(op) != 3 {
+				return
+			}
+			h, okh := c16eIdx(op[2], 'h', c16eNumHashes)
+			if !okh || !freshH[h] || torrents[h].Complete() {
+				return
+			}
+			content := e.blobs[h].Content
+			pl := int(e.blobs[h].MetaInfo.PieceLength())
+			for i := 0; i < torrents[h].NumPieces(); i++ {
+				end := (i + 1) * pl
+				if end > len(content) {
+					end = len(content)
+				}
+				if err := torrents[h].WritePiece(piecereader.NewBuffer(content[i*pl:end]), i); err != nil {
+					panic(err)
+				}
+			}
+			dispatcherCompleteEvent{st.torrentControls[hash(h)].dispatcher}.apply(st)
+			t.Op(op[1:], "ok")
+		case "incoming":
+			if len(op) != 5 {
+				return
+			}
+			p, okp := c16eIdx(op[2], 'p', c16eNumPeers)
+			h, okh := c16eIdx(op[3], 'h', c16eNumHashes)
+			if !okp || !okh {
+				return
+			}
+			var nbrs []int
+			seen := map[int]bool{}
+			for _, nt := range verifh.Unlist(op[4]) {
+				q, ok := c16eIdx(nt, 'p', c16eNumPeers)
+				if !ok || seen[q] {
+					return // the neighbours are map keys: no duplicates
+				}
+				seen[q] = true
+				nbrs = append(nbrs, q)
+			}
+			pc := e.pending(h, p, nbrs)
+			before := probe(h)
+			incomingHandshakeEvent{pc}.apply(st)
+			var later []rec
+			sink = &later
+			after := probe(h)
+			sink = nil
+			if after[p] == "pend" && before[p] != "pend" {
+				t.Op(op[1:], "ok")
+			} else {
+				t.Op(op[1:], "rejected")
+			}
+			for _, r := range later {
+				t.Op(r.toks, r.obs)
 			}
 		case "failout", "failin", "bl", "isbl":
 			if len(op) != 4 {
@@ -446,6 +635,7 @@ func c16eExec(t *verifh.T, e *c16eEnv, c verifh.Case) {
 	}
 	// drain: final status of every peer and blacklist flag
 	if p := verifh.Protect(func() {
+		do([]string{"op", "active"})
 		for h := 0; h < c16eNumHashes; h++ {
 			probe(h)
 			for p := 0; p < c16eNumPeers; p++ {
@@ -456,6 +646,10 @@ func c16eExec(t *verifh.T, e *c16eEnv, c verifh.Case) {
 		t.PropFail("panic", verifh.Str(p))
 	}
 	t.End()
+	// tear the case's dispatchers down first: that closes the conns they were given
+	for _, f := range teardown {
+		f()
+	}
 	for _, cc := range conns {
 		if !cc.c.IsClosed() {
 			k := [2]int{cc.h, cc.p}
@@ -509,10 +703,18 @@ func TestVerif_C16Events(t *testing.T) {
 		c16eOp("connclosed", "c0"), c16eOp("adv", "10"),
 	}
 	exhaust("events_max3", c16eCfg(3, 0, 0, 10), pre, alpha, verifh.Scale(3, 4))
+	// (a') incoming handshakes with neighbours (MaxMutual 1), conns handed over by the real
+	// outgoing/incoming conn events, completion of the torrent
+	alpha2 := [][]string{
+		c16eOp("announce", "h0", "p0,p1"), c16eOp("incoming", "p3", "h0", "p0,p1"), c16eOp("incoming", "p2", "h0", "p0"),
+		c16eOp("outgoing", "c0"), c16eOp("inconn", "c1"), c16eOp("connclosed", "c0"),
+		c16eOp("bl", "p1", "h0"), c16eOp("complete", "h0"),
+	}
+	exhaust("events_incoming_complete", c16eCfg(4, 1, 0, 10), pre, alpha2, 3)
 
 	// (b) random histories over two torrents
 	r := verifh.NewRand(verifh.Seed(), "c16e")
-	for i := 0; i < verifh.Scale(400, 20000); i++ {
+	for i := 0; i < verifh.Scale(400, 6000); i++ {
 		max := []int{2, 3, 3, 4, 0}[r.Intn(5)]
 		disable := 0
 		if r.Chance(1, 10) {
@@ -543,14 +745,26 @@ func TestVerif_C16Events(t *testing.T) {
 					}
 				}
 				o = c16eOp("announce", ht(), verifh.List(ps))
-			case x < 33:
+			case x < 29:
 				o = c16eOp("add", pt(), ht(), "-")
+			case x < 33:
+				var nb []string
+				for q := 0; q < c16eNumPeers; q++ {
+					if r.Chance(1, 2) {
+						nb = append(nb, fmt.Sprintf("p%d", q))
+					}
+				}
+				o = c16eOp("incoming", pt(), ht(), verifh.List(nb))
 			case x < 43:
 				k := len(made)
 				made = append(made, k)
 				o = c16eOp("newconn", fmt.Sprintf("c%d", k), ht(), pt())
-			case x < 55:
+			case x < 49:
 				o = c16eOp("move", anyConn())
+			case x < 53:
+				o = c16eOp([]string{"outgoing", "inconn"}[r.Intn(2)], anyConn())
+			case x < 55:
+				o = c16eOp("complete", ht())
 			case x < 65:
 				o = c16eOp("connclosed", anyConn())
 			case x < 73:
@@ -568,7 +782,7 @@ func TestVerif_C16Events(t *testing.T) {
 			ops = append(ops, o)
 			tr.Count("random_op_"+o[1], 1)
 		}
-		cs := verifh.Case{Cfg: c16eCfg(max, 0, disable, dur), Ops: ops}
+		cs := verifh.Case{Cfg: c16eCfg(max, []int{0, 1, 1, 2}[r.Intn(4)], disable, dur), Ops: ops}
 		if i < 2 {
 			tr.Sample(fmt.Sprint(cs.Cfg, cs.Ops))
 		}
